@@ -214,6 +214,11 @@ impl Parser for Markdown {
                 | pulldown_cmark::Event::Code(code) => {
                     let chunk_len = code.chars().count();
 
+                    // `$$$$` is display math with an empty body: no zero-width Unlintable token
+                    if chunk_len == 0 {
+                        continue;
+                    }
+
                     tokens.push(Token {
                         span: Span::new_with_len(traversed_chars, chunk_len),
                         kind: TokenKind::Unlintable,
